@@ -1,4 +1,5 @@
 from collections import defaultdict
+from copy import copy
 from functools import wraps
 from inspect import Parameter, isgeneratorfunction, signature
 from itertools import chain
@@ -102,6 +103,16 @@ class Validator:
         self.dependencies = find_all_dependencies(owner, self.func) | self.params
         # reassign (instead of mutating in place) in order to reset the cache
         _validators[owner] = [*_validators[owner], self]
+
+    def bound_to(self, owner: Type) -> "Validator":
+        """Validators not registered to a class (`validators` metadata/parameter) have
+        no computed dependencies; compute them for the class they are applied to."""
+        if hasattr(self, "owner"):
+            return self
+        bound = copy(self)
+        bound.owner = owner
+        bound.dependencies = find_all_dependencies(owner, self.func) | self.params
+        return bound
 
     def __set_name__(self, owner, name):
         self._register(owner)
